@@ -377,6 +377,8 @@ def expand(template_path, repo, vacuity=False):
                                     depth += 1
                                 elif x in (">", ")", "]"):
                                     depth -= 1
+                                elif x == ">>":
+                                    depth -= 2
                                 elif (x == "," or x == "}") and depth == 0:
                                     break
                                 e += 1
